@@ -106,6 +106,39 @@ pub fn part<E: Encodable>(name: &'static str, e: &E) -> Part {
             }
         }
     }
+    // sinks that are too small (`&mut [u8]` and `Cursor<&mut [u8]>` with room for fewer bytes than the part needs): the
+    // encoder has to fail, and what it wrote is a prefix; with exactly enough room it succeeds
+    if chunked.is_ok() && !bytes.is_empty() && bytes.len() <= 70_000 {
+        let len = bytes.len();
+        for cap in [len, len - 1, len.saturating_sub(2), len / 2, 1, 0] {
+            if cap > len {
+                continue;
+            }
+            for cursor in [false, true] {
+                let mut store = vec![0u8; cap];
+                let (res, written) = if cursor {
+                    let mut c = std::io::Cursor::new(&mut store[..]);
+                    let r = e.encode(&mut c);
+                    (r, c.position() as usize)
+                } else {
+                    let mut sl: &mut [u8] = &mut store[..];
+                    let r = e.encode(&mut sl);
+                    let left = sl.len();
+                    (r, cap - left)
+                };
+                let what = if cursor { "Cursor<&mut [u8]>" } else { "&mut [u8]" };
+                if cap == len {
+                    if res.is_err() || store[..] != bytes[..] {
+                        chunked = Err(format!("a {} with exactly {} bytes of room: {:?}, {} bytes written", what, cap, res, written));
+                    }
+                } else if res.is_ok() {
+                    chunked = Err(format!("a {} with room for {} of the {} bytes: the encoder returned Ok(()) after writing {} bytes", what, cap, len, written));
+                } else if store[..written.min(cap)] != bytes[..written.min(cap)] {
+                    chunked = Err(format!("a {} with room for {} of the {} bytes received bytes that are not a prefix of the encoding", what, cap, len));
+                }
+            }
+        }
+    }
     // a blocking sink that is interrupted every other call (write_all has to retry, nothing may be lost or repeated)
     if chunked.is_ok() && bytes.len() <= 70_000 {
         let st: Vec<sio::WStep> = (0..bytes.len() + 8).map(|i| if i % 2 == 0 { sio::WStep::Interrupt } else { sio::WStep::Accept(1 + i % 7) }).collect();
@@ -602,12 +635,18 @@ pub fn dec_poll_styled<F: Family>(
     let clone_state = fill_style & 2 != 0;
     let eof_as_error = fill_style & 4 != 0;
     let fault_shape = fill_style >> 4;
+    // bit 3: `fault` is a one-shot transient failure at that position instead of a persistent error
+    let one_shot = fill_style & 8 != 0;
     let fill_style = fill_style & 1;
     let mut reader = ScriptedReader::new(data, steps);
     reader.fill_style = fill_style;
     reader.eof_as_error = eof_as_error;
     reader.fault_shape = fault_shape;
-    reader.fault = fault;
+    if one_shot {
+        reader.fail_once_at = fault;
+    } else {
+        reader.fault = fault;
+    }
     reader.keep_log = keep_log;
     let pend = reader.pendings.clone();
     let transients = reader.transients.clone();
